@@ -405,6 +405,20 @@ def run_heap(tier, seed, scratch, rep, mc=True):
         pool.shutdown(wait=True)
 
 
+def replay(pid, path):
+    """bin/check <C04|C05> --replay <file>.theap: one timer-store script through harness + TLC"""
+    with vlib.Scratch("verif-%s-heapreplay" % pid) as sc:
+        exe = build("plain")
+        tfs = split_traces(run_harness(exe, [[vlib.read(path)]], sc, "replay"), sc, "rsplit")
+        vs, _n = validate(tfs, sc)
+        rc = 0
+        for v in vs:
+            for r in sorted(set(v["viols"])):
+                print("VIOLATION property=%s replay=%s  # %s timer store script %s" % (pid, path, r, v.get("id")), flush=True)
+                rc = 1
+        return rc
+
+
 def main():
     import argparse
     ap = argparse.ArgumentParser()
